@@ -211,7 +211,7 @@ Proof.
   - destruct R as (_ & _ & E). cbn [bvals] in E. eapply map_val_of_nonnone; [exact E|]. intros; discriminate.
   - destruct R as (_ & _ & E). cbn [bvals] in E. eapply map_val_of_nonnone'; [exact E|]. intros; discriminate.
   - destruct R as (_ & _ & ws & H & _). eapply ListH_lists; eauto.
-  - apply rep_record in R. destruct R as (_ & _ & _ & _ & F & _).
+  - apply rep_record in R. destruct R as (_ & _ & F & _).
     eapply forallb_impl; [|exact F]. intros [] ?; try discriminate; reflexivity.
   - apply rep_tuple in R. destruct R as (_ & _ & F & _).
     eapply forallb_impl; [|exact F]. intros [] ?; try discriminate; reflexivity.
